@@ -157,6 +157,16 @@ class Worker(threading.Thread):
             with open(errpath, "w") as errf:
                 proc = subprocess.Popen(cmd, stdout=subprocess.PIPE, stderr=errf, text=True, errors="replace",
                                         env=harness_env())
+                # wall-clock watchdog: only ever turns a stalled worker into an
+                # INFRA diagnosis (exit 2), never into a violation
+                hung = {"v": False}
+
+                def _kill(p=proc, h=hung):
+                    h["v"] = True
+                    p.kill()
+                watchdog = threading.Timer(left + pool.grace_s, _kill)
+                watchdog.daemon = True
+                watchdog.start()
                 got_summary = False
                 for line in proc.stdout:
                     if line.startswith("S "):
@@ -168,6 +178,12 @@ class Worker(threading.Thread):
                     elif line.startswith("P "):
                         self.samples.append(json.loads(line[2:]))
                 rc = proc.wait()
+                watchdog.cancel()
+            if hung["v"]:
+                idx_h, seed_h, _, _ = read_status(status)
+                pool.infra.append("worker %d stalled (no result %.0fs after the end of its budget) in run index %s seed %016x; killed"
+                                  % (self.wid, pool.grace_s, idx_h, seed_h))
+                return
             if os.path.exists(hashes):
                 pool.hash_files.append(hashes)
             idx_in_flight, seed_in_flight, done, nxt = read_status(status)
@@ -216,6 +232,7 @@ class Pool:
         self.hash_files = []
         self.partial_runs = 0
         self.infra = []
+        self.grace_s = 180.0
 
     def note_failure(self):
         with self.lock:
